@@ -94,8 +94,8 @@ PROPS = {
     ),
     'C03': dict(
         lean=['Props.C03', 'Props.FactsProc'],
-        streams=['processor'],
-        project={'processor': r'^< (md|m\.|re|rs|ret|panic)'}, rule=PROC_RULE, trusted=PROC_TRUSTED,
+        streams=['processor', 'e2e'],
+        project={'processor': r'^< (md|m\.|re|rs|ret|panic)', 'e2e': r'^< config'}, rule=PROC_RULE, trusted=PROC_TRUSTED,
         assumptions=PROC_ASSUME['C03'],
     ),
     'C04': dict(
